@@ -83,6 +83,9 @@ def oracle(case, recs, out, stats):
                     inputs_ok = inputs_ok and check_inputs(impl, inputs, op, hist, out)
                     continue
                 before = parse_values(impl.observe("values"))
+                if op[0] in ("copycell", "copyspace", "setref", "delref", "shadow", "unshadow"):
+                    inputs_ok = _copy_or_ref_edit(impl, op, before, inputs, hist, out, stats) and inputs_ok
+                    continue
                 nodes, edges = parse_graph(impl.observe("graph"))
                 cid = int(op[1])
                 impl.log = []
@@ -182,10 +185,48 @@ def oracle(case, recs, out, stats):
     return nontrivial
 
 
+def _copy_or_ref_edit(impl, op, before, inputs, hist, out, stats):
+    """A copy (Cells.copy, UserSpace.copy) takes the ASSIGNED values of its source with it, as inputs of the copy, and
+    nothing else: the calculated values of the source are not values of the copy.
+    A reference edit clears calculated values only: every input stays, with its value."""
+    from ..execworld import COPY_BASE
+    if op[0] == "copycell":
+        pairs = [(int(op[1]), int(op[3]))]
+    elif op[0] == "copyspace":
+        pairs = [(c, COPY_BASE + c) for c, k in sorted(impl.cell_space.items()) if k == 1 and impl.exists(c)]
+    else:
+        pairs = []
+    res = impl.apply(op)
+    after = parse_values(impl.observe("values"))
+    if pairs and res == "ok":
+        stats["oracle_copies_examined"] += 1
+        copied = {}
+        for src, dst in pairs:
+            for x in sorted(inputs):
+                if x.startswith("%d[" % src):
+                    y = "%d[%s" % (dst, x.split("[", 1)[1])
+                    copied[y] = before[x]
+                    inputs.add(y)
+        # a new cells changes the namespace of its space: calculated values may be discarded by that; none may
+        # appear or change, every assigned value stays, and the copy holds exactly the assigned values of its source
+        odd = {x: v for x, v in after.items() if copied.get(x, before.get(x)) != v}
+        lost = {x: v for x, v in list(before.items()) + list(copied.items()) if x in inputs and after.get(x) != v}
+        if odd or lost:
+            out.fail("after %s the copy does not hold exactly the assigned values of its source (as inputs): "
+                     "unexpected %s, missing %s" % (" ".join(op), dict(list(odd.items())[:4]), dict(list(lost.items())[:4])), hist)
+            return False
+    else:
+        lost = {x: v for x, v in before.items() if x in inputs and after.get(x) != v}
+        if lost:
+            out.fail("after %s assigned values are gone or changed: %s" % (" ".join(op), lost), hist)
+            return False
+    return check_inputs(impl, inputs, op, hist, out)
+
+
 def _assigned_under_every_spelling(impl, case, cid, key, op, hist, out, stats):
     """the assigned value is what the cells returns for those arguments – positional, by keyword, defaults left out,
     as a subscript – without running a formula, and the element is an input under every spelling"""
-    c = next(x for x in case["cells"] if x["id"] == cid)
+    c = next(x for x in case["cells"] if x["id"] == X.origin_of(case["ops"], cid))
     cells = impl.cells[cid]
     v = op[op.index("=") + 1]
     for label, pos, kw in X.all_spellings(c["nparams"], c.get("defaults") or [], key):
@@ -350,7 +391,8 @@ def dag_enumeration(ctx, out, stats):
 def run(ctx, out):
     from .. import dagenum
     stats = X.run_family(ctx, out, CFG, oracle, 120, 2000,
-                         structured=scenario_cases() + spelled_edit_cases() + dagenum.sample_cases(ctx, 4, ctx.n(40, 400)))
+                         structured=scenario_cases() + spelled_edit_cases() + X.copy_cases()
+                         + dagenum.sample_cases(ctx, 4, ctx.n(40, 400)))
     overwrite_equal(out, stats)
     dag_enumeration(ctx, out, stats)
     for k in ("dag_shapes", "dag_orders", "dag_scenarios"):
